@@ -63,6 +63,10 @@ pub struct Scenario {
     /// the driver only when nothing else can move (a slow link; per-pair order is kept: the sender awaits each call)
     #[serde(default, skip_serializing_if = "Vec::is_empty")]
     pub slow: Vec<usize>,
+    /// parties whose schedule() call is made only when nothing else can move (the leader's validate request reaches
+    /// them before their own policy does)
+    #[serde(default, skip_serializing_if = "Vec::is_empty")]
+    pub late: Vec<usize>,
 }
 
 /// One driver step, in the JSON shape MC_Server exports.
@@ -819,6 +823,11 @@ impl Driver {
         // messages on the slow link go last
         if cands.iter().any(|x| x.g != "msg") {
             cands.retain(|x| x.g != "msg");
+        }
+        // schedule() calls of late parties only when nothing else can move
+        let is_late = |x: &Step| x.g == "api" && x.what.as_deref() == Some("schedule") && scen.late.contains(&x.p);
+        if cands.iter().any(|x| !is_late(x)) {
+            cands.retain(|x| !is_late(x));
         }
         let mut s = cands.choose(rng).expect("nonempty").clone();
         if s.g == "rpc" && self.budget.rpcfail > 0 && rng.random_range(0..6) == 0 {
